@@ -1080,6 +1080,9 @@ class Interp(Engine):
         """Does the value have the kind (not the range) the variant of the callee was verified for?"""
         if isinstance(T_, TConst):
             try:
+                if isinstance(v, (VList, VTuple)) and isinstance(T_.value, (list, tuple)):
+                    items = self.iter_concrete(v)
+                    return len(items) == len(T_.value) and all(self.lower(self.force(x)) == y for x, y in zip(items, T_.value))
                 return self.lower(v) == T_.value or (T_.value is None and isinstance(v, VNone))
             except Exception:
                 return isinstance(v, VNone) and T_.value is None
